@@ -45,4 +45,6 @@ def run(ctx, rep):
     rep.run(RM.rule_membership_tables_are_collections, ctx, rep, "T15")
     # T16: every group of free-function overloads reaches its file (no name filter in front of the append)
     rep.run(RM.rule_every_function_group_gets_its_file, ctx, rep, "T16")
+    rep.run(RM.rule_serialize_pair_complete, ctx, rep, "T17")
+    rep.run(RM.rule_containers_registered_before_they_are_judged, ctx, rep, "T18")
     rep.run(RF.rule_locals_defined, ctx, rep, "U1", packages=("gtwrap/matlab_wrapper",), min_functions=3)
